@@ -232,4 +232,50 @@ func runC02(c *Collector, r *Rng, thorough bool) {
 			}
 		}
 	}
+	// ---- keys that use the library themselves before reading their input (a KMS adapter signing an audit
+	// record, a verifier checking a certificate chain of COSE objects): the bytes they finally read must
+	// still be the structure of the outer operation ----
+	otherWork := func() {
+		in := &cose.Sign1Message{Headers: cose.Headers{Protected: cose.ProtectedHeader{cose.HeaderLabelAlgorithm: cose.AlgorithmES256}}, Payload: []byte("audit")}
+		in.Sign(nil, []byte("aa"), &spySigner{alg: -7, kind: SOk, sig: []byte{7}})
+		in.Verify([]byte("aa"), &spyVerifier{alg: -7})
+		in.MarshalCBOR()
+		sm := &cose.SignMessage{Headers: cose.Headers{Protected: cose.ProtectedHeader{}}, Payload: []byte("a"), Signatures: []*cose.Signature{{Headers: cose.Headers{Protected: cose.ProtectedHeader{cose.HeaderLabelAlgorithm: cose.AlgorithmES256}}}}}
+		sm.Sign(nil, nil, &spySigner{alg: -7, kind: SOk, sig: []byte{8}})
+		sm.Verify(nil, &spyVerifier{alg: -7})
+		cose.Countersign0(nil, &spySigner{alg: -7, kind: SOk, sig: []byte{9}}, in, nil)
+	}
+	rn := 20
+	if thorough {
+		rn = 500
+	}
+	for i := 0; i < rn; i++ {
+		alg := pick(r, goAlgs)
+		ext := genGoExternal(r)
+		m := &cose.Sign1Message{Headers: genGoHeaders(r, cfg, alg, true, false), Payload: genGoPayloadNonNil(r)}
+		sg := &spySigner{alg: alg, kind: SOk, sig: genSigBytes(r), before: otherWork}
+		c.Eval("reentrant/sign1", fmt.Sprint(i), true)
+		if err := m.Sign(nil, ext, sg); err == nil && len(sg.calls) == 1 {
+			if want, rerr := refSig1(&m.Headers, ext, m.Payload); rerr == nil && !bytes.Equal(want, sg.calls[0]) {
+				c.Fail("C02/reentrant-key-read-other-bytes", fmt.Sprintf("a signer that used the library before reading its input read %x, the structure is %x", trimTo(sg.calls[0], 80), trimTo(want, 80)), map[string]any{"i": i})
+			}
+			vf := &spyVerifier{alg: alg, before: otherWork}
+			if err := m.Verify(ext, vf); err == nil && len(vf.calls) == 1 {
+				if want, rerr := refSig1(&m.Headers, ext, m.Payload); rerr == nil && !bytes.Equal(want, vf.calls[0].content) {
+					c.Fail("C02/reentrant-key-read-other-bytes", fmt.Sprintf("a verifier that used the library before reading its input read %x, the structure is %x", trimTo(vf.calls[0].content, 80), trimTo(want, 80)), map[string]any{"i": i})
+				}
+			}
+		}
+		sm := &cose.SignMessage{Headers: genGoHeaders(r, cfg, 0, false, false), Payload: genGoPayloadNonNil(r)}
+		sm.Signatures = []*cose.Signature{{Headers: genGoHeaders(r, cfg, alg, true, false)}, {Headers: genGoHeaders(r, cfg, alg, true, false)}}
+		s1, s2 := &spySigner{alg: alg, kind: SOk, sig: genSigBytes(r), before: otherWork}, &spySigner{alg: alg, kind: SOk, sig: genSigBytes(r), before: otherWork}
+		c.Eval("reentrant/signmsg", fmt.Sprint(i), true)
+		if err := sm.Sign(nil, ext, s1, s2); err == nil {
+			for j, sp := range []*spySigner{s1, s2} {
+				if want, rerr := refSigN(&sm.Headers, &sm.Signatures[j].Headers, ext, sm.Payload); rerr == nil && len(sp.calls) == 1 && !bytes.Equal(want, sp.calls[0]) {
+					c.Fail("C02/reentrant-key-read-other-bytes", fmt.Sprintf("COSE_Sign signer %d that used the library before reading its input read %x, the structure is %x", j, trimTo(sp.calls[0], 80), trimTo(want, 80)), map[string]any{"i": i})
+				}
+			}
+		}
+	}
 }
